@@ -62,7 +62,9 @@ MsVals ==
                                                    IF Len(b) = 8 THEN << b[1] % 128 >> \o Tail(b) ELSE b]
 SecVals ==
   << << >>, << 1 >>, Pow256(4), Rep(4, 255), NatLimbs(2147483647), << 2, 37, 169, 53, 159 >>,
-     DivModSmallBE(MaxInt64, 1000)[1], AddBE(DivModSmallBE(MaxInt64, 1000)[1], << 1 >>), MaxInt64 >>
+     DivModSmallBE(MaxInt64, 1000)[1], AddBE(DivModSmallBE(MaxInt64, 1000)[1], << 1 >>), MaxInt64,
+     \* second counts whose product with 1000 wraps around 2^64 back into the non-negative range (ceil(2^64/1000), + 100, 2^61, 2^62, 2^61 + 1.7e9)
+     << 0, 65, 137, 55, 75, 198, 167, 240 >>, << 0, 65, 137, 55, 75, 198, 168, 84 >>, << 32, 0, 0, 0, 0, 0, 0, 0 >>, << 64, 0, 0, 0, 0, 0, 0, 0 >>, << 32, 0, 0, 0, 101, 83, 241, 0 >> >>
   \o [k \in 1..(IF Thorough THEN 100 ELSE 10) |-> Rnd(Seed, (k % 5) + 1, 4000 + k)]
 DateVecs ==
   SeqMap(LAMBDA v : [op |-> "DateNew", fn |-> "NewDateFromMillis", neg |-> FALSE, v |-> PadTo(v, 8), ns |-> 0], MsVals)
